@@ -59,6 +59,18 @@ def check(ctx):
     L1 = ctx.rule("L1", "lock order Account -> Endpoint at every acquisition (direct, or via a called/awaited workspace body that may acquire)")
     L2 = ctx.rule("L2", "no acquisition of a lock class the task may already hold (any mode)")
     L3 = ctx.rule("L3", "one AccountSync and one EndpointSync per task; every acquisition's receiver is one of them")
+    acq_sum, direct = lock_rules(ctx)
+    # L3
+    rc = prog.must_body(RC)
+    L1, L2 = "L1", "L2"
+    lock_rules_tail(ctx, L3, rc, direct)
+
+
+def lock_rules(ctx):
+    """L1/L2 over every body of acmed that holds or acquires a lock (rules "L1" and "L2" must be registered by the caller);
+    shared with C07 (an attempt that waits for ever on a lock neither ends nor reports)"""
+    prog = ctx.prog
+    L1 = "L1"
     acq_sum, direct = may_acquire(prog)
     ctx.notes.append("bodies with direct acquisitions: %s" % sorted(direct.keys()))
     n_sites = 0
@@ -108,8 +120,11 @@ def check(ctx):
                                (b.file_of(c.bb), c.line, tkey.rsplit("::", 2)[-2] if "{closure" in tkey else tkey.rsplit("::", 1)[-1],
                                 a[0].rsplit("::", 1)[1], sorted(x[0].rsplit("::", 1)[1] for x in held)))
     ctx.floor(L1, "lock acquisition sites in the workspace", n_sites, 10)
-    # L3
-    rc = prog.must_body(RC)
+    return acq_sum, direct
+
+
+def lock_rules_tail(ctx, L3, rc, direct):
+    prog = ctx.prog
     ins = rc.raw.get("inputs", [])
     n_acc = sum(1 for t in ins if "RwLock<acmed::account::Account>" in t)
     n_ep = sum(1 for t in ins if "RwLock<acmed::endpoint::Endpoint>" in t)
@@ -226,6 +241,25 @@ def check_nonce(ctx):
         if c.bb in rcc.live_blocks() and c.res and c.res.startswith("<async_lock::rwlock::RwLockWriteGuard<") and c.res.endswith("core::ops::deref::DerefMut>::deref_mut"):
             n += 1
     ctx.floor(L4, "deref_mut of write guards in request_certificate", n, 5)
+    # every `&mut Endpoint` handed out in request_certificate IS the shared endpoint (deref_mut of its write guard), never a private
+    # copy that is written back later: a copy carries a stale nonce (and a private request log) and restores it over the fresh one
+    n_ep = 0
+    for c in rcc.calls:
+        if c.bb not in rcc.live_blocks():
+            continue
+        tys = c.term.get("arg_tys") or []
+        for k_, t_ in enumerate(tys):
+            if t_.replace(" ", "") not in ("&mutacmed::endpoint::Endpoint",) or k_ >= len(c.args):
+                continue
+            if (c.name or "").endswith("deref_mut") or (c.name or "").startswith("core::") :
+                continue
+            n_ep += 1
+            sl = arg_origins(c, k_)
+            wr = [x for x in sl.calls if acquisition_of(x) is not None and acquisition_of(x)[1] in ("W", "write") and "Endpoint" in acquisition_of(x)[0]]
+            copies = sorted(v for v in sl.via if v.rsplit("::", 1)[-1] in ("clone", "to_owned", "clone_from", "take", "replace", "default"))
+            ctx.require(L4, bool(wr) and not copies, c.where(), "%s works on the shared endpoint through its write guard (copies: %s)" % (c.name.rsplit("::", 1)[-1], copies),
+                        [RC, "endpoint-snapshot", c.name.rsplit("::", 1)[-1]])
+    ctx.floor(L4, "calls taking &mut Endpoint in request_certificate", n_ep, 5)
     # a nonce leaves the shared endpoint only for the request that signs with it, and every response — accepted or refused —
     # puts the server's next nonce back before the endpoint guard is released (rules shared with C04.R2 / C08.R6)
     from .http_common import fresh_nonce_rule, nonce_update_rule
